@@ -239,7 +239,7 @@ static void configure_run(uint64_t run_index) {
   R.tape_pos = 0; R.dec_pos = 0;
   R.nthreads = 0; R.cur = -1; R.finished = 0;
   R.step = 0; R.switches = 0; R.change_counter = 1; R.seq = 0; R.hash = 0xcbf29ce484222325ull;
-  R.spin_last_change = 0; R.spin_resumes = 0; R.choice_ord = 0; R.picks = 0;
+  R.spin_last_change = 0; R.spin_resumes = 0; R.choice_ord = 0; R.picks = 0; R.plain_since_step = 0;
   R.step_cap = O.step_cap;
   R.now_ns = 1000000000ull;  // start at t = 1 s so that "past" deadlines exist
   R.timers.clear(); R.timer_seq = 0;
@@ -269,8 +269,7 @@ static void configure_run(uint64_t run_index) {
   } else {
     R.strategy = STRAT_NP;
   }
-  R.timer_first = cfg.below(4) == 0;
-  if (R.timer_first) R.fault_rate[USIM_F_TIMER_FIRST] = 30;
+  R.timer_first = false;  // the stalled-thread fault is enabled by workloads (usim_fault_rate)
   shim_reset();
   arena_reset();
   if (fdlayer_reset) fdlayer_reset();
@@ -298,7 +297,20 @@ static void run_one(uint64_t run_index) {
   pthread_attr_destroy(&a);
   __atomic_store_n(&t.go, 1, __ATOMIC_SEQ_CST);
   futex_wake(&t.go, 1);
-  while (!__atomic_load_n(&R.done_futex, __ATOMIC_SEQ_CST)) futex_wait(&R.done_futex, 0);
+  {
+    uint64_t last_step = ~0ull, last_plain = ~0ull;
+    int idle_s = 0;
+    while (!__atomic_load_n(&R.done_futex, __ATOMIC_SEQ_CST)) {
+      struct timespec to{1, 0};
+      raw_syscall6(202 /*SYS_futex*/, (long)&R.done_futex, 128 /*FUTEX_WAIT_PRIVATE*/, 0, (long)&to, 0, 0);
+      if (R.step == last_step && R.plain_since_step == last_plain) {
+        if (++idle_s >= 20) {
+          fprintf(stderr, "usim: watchdog: no scheduling point for 20 s of real time in run %llu (real blocking inside a run)\n", (unsigned long long)R.run_index);
+          _exit(4);
+        }
+      } else { idle_s = 0; last_step = R.step; last_plain = R.plain_since_step; }
+    }
+  }
   // all sim threads are finished and parked in their trampolines
   int n = R.nthreads;
   // end-of-run checks (still "active" so that reports work; executed on the driver thread)
